@@ -7,6 +7,8 @@ Open Scope Q_scope.
 
 Inductive case :=
 | CPareto (vals : list (list Q)) (front dominated : list nat)
+(* _find_sorted_pareto_frontier_values_minimization on a two-metric value matrix *)
+| CSortedFront (vals out : list (list Q))
 | CEps (eps : Q) (cm : nat) (vals : list (list Q)) (t0 t1 : option Q) (out : Q)
 | CEpsFail (eps : Q) (cm : nat) (vals : list (list Q)) (fails out : list bool)
 | CForce (om : nat) (vals : list (list Q)) (fails out : list bool) (ties : bool)
@@ -27,6 +29,10 @@ Definition check (c : case) : bool :=
   | CPareto vals f d =>
       let '(mf, md) := pareto_split vals (seq 0 (length vals)) in
       nlist_eqb mf f && nlist_eqb md d && pareto_spec_b vals f d
+  | CSortedFront vals out =>
+      (* on a two-metric frontier rows with the same first metric are identical, so the sorted matrix is unique *)
+      list_eqb (list_eqb Qeq_bool) (sorted_pareto_min vals) out &&
+      Nat.eqb (length out) (length (filter (nondominated_b (neg_rows vals)) (seq 0 (length vals))))
   | CEps eps cm vals t0 t1 out => Qeq_bool (find_eps eps cm vals t0 t1) out
   | CEpsFail eps cm vals fails out => blist_eqb (eps_failures eps cm vals fails) out
   | CForce om vals fails out ties =>
